@@ -24,6 +24,27 @@ def run_govc(prop, tier, here, repo, env, binp, scratch, extra_props=None):
     t0 = time.time()
     r = subprocess.run(cmd, env=env, capture_output=True, text=True)
     res = load_json(out, {"error": "govc produced no output: " + (r.stderr or r.stdout)[-2000:]})
+    # second chance for obligations the solvers did not decide in time (machine load, slow queries): the functions
+    # concerned are re-verified alone with a longer timeout; a verdict is only reported from the final attempt
+    undec = ("undecided", "canary-undecided", "unknown", "timeout")
+    retry = []
+    for f in res.get("funcs") or []:
+        if any(o["status"] in undec and (prop in (o.get("props") or [])) for o in f.get("obligations") or []):
+            retry.append(f["func"] + ("/" + f["variant"] if f.get("variant") else ""))
+    if retry:
+        out2 = os.path.join(scratch, "govc_retry.json")
+        rx = "^(" + "|".join(re.escape(k) for k in retry) + ")$"
+        cmd2 = [binp, "-repo", repo, "-only", rx, "-timeout", "40" if tier == "quick" else "120", "-out", out2,
+                "-scratch", os.path.join(scratch, "smt2"), "-replaydir", os.path.join(scratch, "replaytests")]
+        subprocess.run(cmd2, env=env, capture_output=True, text=True)
+        res2 = load_json(out2, {})
+        byk = {f["func"] + ("/" + f["variant"] if f.get("variant") else ""): f for f in res2.get("funcs") or []}
+        funcs = []
+        for f in res.get("funcs") or []:
+            k = f["func"] + ("/" + f["variant"] if f.get("variant") else "")
+            funcs.append(byk.get(k, f))
+        res["funcs"] = funcs
+        res["retried"] = retry
     res["wall_s"] = time.time() - t0
     return res
 
